@@ -34,3 +34,14 @@ CORPUS = [
     M("n-class-else", D, "        if device_type == DeviceType.AIR_CONDITIONER:\n            return AirConditioner\n\n        # Unknown type return generic device\n        return Device",
       "        if device_type != DeviceType.AIR_CONDITIONER:\n            return Device\n        return AirConditioner", "S"),
 ]
+# round 3: signedness of the reads; containment premises imported from C18
+CORPUS += [
+    M("port-signed", D, 'port = int.from_bytes(decrypted_mv[4:6], "little")', 'port = int.from_bytes(decrypted_mv[4:6], "little", signed=True)'),
+    M("port-struct-signed", D, 'port = int.from_bytes(decrypted_mv[4:6], "little")', 'port = struct.unpack_from("<h", decrypted_mv, 4)[0]',
+      also=[(D, "import socket\n", "import socket\nimport struct\n")]),
+    # (unsigned, but a body shorter than 6 bytes now raises struct.error, which the per-host handler does not catch: reported through C18.b)
+    M("port-struct-unsigned-uncontained", D, 'port = int.from_bytes(decrypted_mv[4:6], "little")', 'port = struct.unpack("<H", decrypted_mv[4:6])[0]',
+      also=[(D, "import socket\n", "import socket\nimport struct\n")]),
+    M("n-port-explicit-unsigned", D, 'port = int.from_bytes(decrypted_mv[4:6], "little")', 'port = int.from_bytes(decrypted_mv[4:6], "little", signed=False)', "S"),
+    M("handler-narrowed-imported", D, "except (ValueError, LookupError, OSError, ET.ParseError) as e:", "except (ValueError, KeyError, OSError, ET.ParseError) as e:"),
+]
